@@ -36,6 +36,8 @@ def clause_filter(cls, i):
         return {"type": "offhour", "offhour": 18 + i, "tag": "down%d" % i, "default_tz": "et"}
     if cls == "ncond":    # the translation begins with "!" but its top-level operator is ?:
         return {"type": "offhour", "offhour": 18 + i, "tag": "down%d" % i, "default_tz": "et", "skip-days": ["2021-01-0%d" % i]}
+    if cls == "pand":     # the translation is "(A) && (B)": parenthesised at both ends, but not one group
+        return {"type": "network-location", "compare": ["resource", "subnet"], "key": "tag:T%d" % i, "match": "equal", "max-cardinality": 1}
     if cls == "or2":      # no shipped rewriter has || at its top level: the clause text is supplied the way the repository's own tests do
         return {"type": "value", "key": OR2_MARK + str(i), "value": i, "op": "eq"}
     raise KeyError(cls)
@@ -191,7 +193,7 @@ def run(ctx: Ctx) -> int:
             ctx.disagree(sig, case)
     ctx.cov["evaluations"] += nev
     ctx.cov["library_evaluated_translations"] = len(evals)
-    ctx.assumptions += ["clause families: value (atom, negated boolean), marked-for-op (&&), offhour (?:), offhour with skip-days (! ... ?:); a clause with || at its top level is supplied by patching "
+    ctx.assumptions += ["clause families: value (atom, negated boolean), marked-for-op (&&), offhour (?:), offhour with skip-days (! ... ?:), network-location ((A) && (B)); a clause with || at its top level is supplied by patching "
                         "type_value_rewrite, as the repository's tests do, because no shipped rewriter produces one",
                         "library evaluation (b) covers the clause classes whose truth can be fixed through the resource document (value, marked-for-op)"]
     return ctx.finish(rule="TLC enumerates filter trees (list / and / or / not, 1-3 children, depth 2-3, singleton connectives) x clause-class assignments and checks "
